@@ -24,12 +24,18 @@ type scriptReader struct {
 	lines    []string
 	dflt     string
 	consumed int
+	// adapt, if set, may replace a line given the prompt the UI printed last
+	// (see lastPrompt).
+	adapt func(prompt, line string) string
 }
 
 func (r *scriptReader) Read(p []byte) (int, error) {
 	line := r.dflt
 	if len(r.lines) > 0 {
 		line, r.lines = r.lines[0], r.lines[1:]
+	}
+	if r.adapt != nil {
+		line = r.adapt(lastPrompt(), line)
 	}
 	r.consumed++
 	n := copy(p, line+"\n")
@@ -75,6 +81,29 @@ func captureStdout(f func()) string {
 	bs := make([]byte, n)
 	captureFile.ReadAt(bs, 0)
 	return string(bs)
+}
+
+// lastPrompt returns the unterminated last line of the captured output: the
+// prompt the UI is waiting at ("" outside captureStdout).
+func lastPrompt() string {
+	if captureFile == nil {
+		return ""
+	}
+	n, err := captureFile.Seek(0, 1)
+	if err != nil || n == 0 {
+		return ""
+	}
+	from := n - 400
+	if from < 0 {
+		from = 0
+	}
+	bs := make([]byte, n-from)
+	captureFile.ReadAt(bs, from)
+	t := string(bs)
+	if i := strings.LastIndexByte(t, '\n'); i >= 0 {
+		t = t[i+1:]
+	}
+	return t
 }
 
 // newProgramUI builds the UI of cmd/mltwist/main.go for a generated RV64
